@@ -116,6 +116,35 @@ func globalStringList(p *Program, pkg, name string) ([]string, bool) {
 	}
 	var out []string
 	found := false
+	// an array variable: the initialiser stores its elements one by one
+	{
+		vals := map[int64]string{}
+		eachInstr(initf, func(in ssa.Instruction) {
+			st, ok := in.(*ssa.Store)
+			if !ok {
+				return
+			}
+			ia, ok := st.Addr.(*ssa.IndexAddr)
+			if !ok || ia.X != ssa.Value(g) {
+				return
+			}
+			if i, ok := constInt(ia.Index); ok {
+				if str, ok := constString(st.Val); ok {
+					vals[i] = str
+				}
+			}
+		})
+		if len(vals) > 0 {
+			for i := int64(0); i < int64(len(vals)); i++ {
+				v, ok := vals[i]
+				if !ok {
+					return nil, false
+				}
+				out = append(out, v)
+			}
+			return out, true
+		}
+	}
 	eachInstr(initf, func(in ssa.Instruction) {
 		st, ok := in.(*ssa.Store)
 		if !ok || st.Addr != ssa.Value(g) {
